@@ -14,25 +14,32 @@ import os, re, json, subprocess, collections, time, itertools
 
 from tools.check import MachineryError, ROOT, REPO
 
-RULE = ('(A) every pair (thorough: also triple) of lock episodes that different goroutines of the workloads executed on '
-        'overlapping real lock instances is one TLC configuration (LockOrder.tla, Go RWMutex semantics incl. pending '
-        'writers excluding new readers); TLC explores all interleavings and checks NoWaitCycle, the hazard invariants and '
-        'deadlock freedom; a counterexample is a prediction and is reported only after a gated re-run caught real goroutines '
-        'simultaneously in that cycle. (B) every recorded lock / unlock / guarded-map access of the workloads is one line of '
-        'a trace validated by TLC against LockDiscipline.tla (guard of the same object held in the required mode; '
-        'construction phase excepted); distinct = distinct episode shapes + distinct guarded-map access sites exercised')
+RULE = ('(A) every pair (thorough: also every triple incl. "two nested readers + a pending writer") of lock episodes that different '
+        'goroutines of the workloads executed on overlapping real lock instances is one TLC configuration of LockOrder.tla (Go '
+        'Mutex/RWMutex semantics incl. a pending Lock excluding new readers); TLC explores all interleavings and checks '
+        'NoWaitCycle, NoSelfRelock, NoRecursiveRLock, NoBadUnlock and deadlock freedom; a counterexample is a prediction and is '
+        'reported only if, in a gated re-run, real goroutines brought into the predicted state and released stay blocked on '
+        'each other (or if a workload deadlocks by itself). (B) every recorded lock / unlock / guarded-map access of the '
+        'workloads is one line of a trace validated by TLC against LockDiscipline.tla (guard of the same object held in the '
+        'required mode; construction phase excepted), rejected accesses are reported when a second recording rejects them '
+        'again; distinct = distinct episode shapes + distinct guarded-map access sites exercised')
 ASSUMPTIONS = [
-    'NOT decided: data races on non-map memory (plain fields, slices, pointers read/written without synchronisation), correct '
-    'use of atomics, channel protocols, sync.WaitGroup/sync.Once/context waits - a happens-before detector is needed for those',
-    'deadlocks are decided only for the lock episodes the workloads exercise (the repository\'s e2e tests on the instrumented '
-    'tree), predictively over all interleavings of 2 (thorough: 3) of them on the lock instances they were recorded on; '
-    'a cycle through two instances of one class that never met in one recorded pair of episodes is not predicted '
-    '(class-level renaming is not used), and neither are blocking operations other than sync.Mutex/RWMutex',
-    'a prediction is reported as a violation only when the gate catches it on real goroutines within a bounded number of '
-    're-runs; unreproduced predictions are listed in the evidence (extra.unconfirmed) and printed, exit status stays 0',
+    'NOT decided: data races on non-map memory (plain fields, slices, pointers read/written without synchronisation, e.g. the '
+    'unsynchronised read of config.C.Settings), correct use of atomics, channel protocols, sync.WaitGroup / sync.Once / context '
+    'waits - a happens-before detector is needed for those; a hang that is not a cycle of sync.Mutex/RWMutex waits is only noted',
+    'deadlocks are decided only for the lock episodes the workloads exercise (the repository\'s e2e tests + a five-node '
+    'concurrent stress workload, on the instrumented packages nebula and config), predictively over all interleavings of 2 '
+    '(thorough: 3) of them on the lock instances they were recorded on; loops that repeat the same balanced block of lock '
+    'operations are collapsed to one iteration',
+    'thorough tier, diagnostic: episode shapes that nest two lock CLASSES in opposite orders are also paired with instances '
+    'renamed (class level); such predictions can be impossible, they are listed as unconfirmed unless reproduced',
+    'a prediction becomes a violation only when real goroutines stay blocked in that cycle (seen twice, >= 2 s apart, on books '
+    'that count a lock as held only between the return of Lock and the call of Unlock); predictions not reproduced within the '
+    'bounded number of gated re-runs are listed in the evidence (extra.unconfirmed) and printed, exit status 0',
     'map discipline covers map-typed fields of structs that declare a sync mutex, in packages nebula and config; maps reached '
     'through a copied map value (extra.map_escapes), maps in structs without a mutex, and maps of other packages are not seen; '
-    'the creator of an object is taken to be the first goroutine that touches it',
+    'the creator of an object is taken to be the first goroutine that touches it; objects are identified by address and '
+    'pinned, so addresses are never reused',
     'ordering known to the model: program order and goroutine creation (go statements, WaitGroup.Go, time.AfterFunc); '
     'orderings by channels / WaitGroup.Wait are unknown to it, which can only add predictions, never verdicts',
 ]
@@ -85,9 +92,10 @@ def gen_table(ctx):
     return path, names
 
 
-def run_workload(ctx, ov, table, name, tests=None, plan=None, timeout=480):
+def run_workload(ctx, ov, table, name, tests=None, plan=None, timeout=480, deadline=200):
     """Run (a subset of) the e2e tests on the instrumented tree. Returns (result or None, error text, output directory)."""
-    env = {'GOMAXPROCS': '8', 'VLK_TESTS': tests or '', 'VLK_STRESS_MS': '2500' if ctx.quick else '8000'}
+    env = {'GOMAXPROCS': '8', 'VLK_TESTS': tests or '', 'VLK_STRESS_MS': '2500' if ctx.quick else '8000',
+           'VLK_DEADLINE_S': str(deadline)}
     if plan:
         env['VLK_PLAN'] = plan
     outdir = os.path.join(ctx.scratch, 'out_' + re.sub(r'\W', '_', name))
@@ -261,6 +269,13 @@ def episodes(ev, meta, comp):
                 # episode complete
                 del cur[g]
                 stats['episodes'] += 1
+                if len(c['steps']) > 12:
+                    keep = compress(c['steps'])
+                    if len(keep) < len(c['steps']):
+                        stats['episodes_compressed'] += 1
+                        ks = set(keep)
+                        c['forks'] = [(sum(1 for k in keep if k < i), n) for (i, n) in c['forks']]
+                        c['steps'] = [c['steps'][k] for k in keep]
                 loc = {}
                 prog, kinds, clss = [], [], []
                 depth = md = 0
@@ -279,8 +294,11 @@ def episodes(ev, meta, comp):
                 sid = shapes.get(key)
                 if sid is None:
                     sid = shapes[key] = len(shape_list)
-                    shape_list.append({'prog': tuple(prog), 'kinds': tuple(kinds), 'cls': tuple(clss), 'depth': md, 'n': 0})
+                    shape_list.append({'prog': tuple(prog), 'kinds': tuple(kinds), 'cls': tuple(clss), 'depth': md, 'n': 0, 'gs': set(),
+                                       'tests': set()})
                 shape_list[sid]['n'] += 1
+                if len(shape_list[sid]['gs']) < 8:
+                    shape_list[sid]['gs'].add(g)
                 addrs = tuple(loc)
                 ok = (sid, addrs)
                 o = occs.get(ok)
@@ -291,6 +309,52 @@ def episodes(ev, meta, comp):
                     o.wit.append((g, c['n0'], e['n'], tuple(c['forks'])))
     stats['incomplete_episodes'] = len(cur)
     return shape_list, list(occs.values()), parent, stats
+
+
+def compress(steps, mi=3):
+    """Collapse immediately repeated, balanced blocks of steps (loops that take and release the same locks at the same
+    sites again and again while the same outer locks stay held): the second copy adds no state of the locking protocol
+    that the first does not have. A block that nets an acquisition (recursive RLock!) is never collapsed.
+    Returns the kept indexes."""
+    idx = list(range(len(steps)))
+    changed = True
+    while changed:
+        changed = False
+        n = len(idx)
+        for b in range(3, min(90, n // 2) + 1):
+            i = 0
+            out = []
+            while i < len(idx):
+                blk = [steps[k] for k in idx[i:i + b]]
+                j = i + b
+                if len(blk) == b and _balanced(blk, mi):
+                    while [steps[k] for k in idx[j:j + b]] == blk:
+                        j += b
+                        changed = True
+                    if j > i + b:
+                        out.extend(idx[i:i + b])
+                        i = j
+                        continue
+                out.append(idx[i])
+                i += 1
+            idx = out
+    return idx
+
+
+def _balanced(blk, mi):
+    held = []
+    for t in blk:
+        op, a, m = t[0], t[1], t[mi]
+        if op in ('got', 'try'):
+            held.append((a, m))
+        elif op == 'rel':
+            if (a, m) not in held:
+                return False
+            held.remove((a, m))
+    if held:
+        return False
+    # a block must not end between a want and its got
+    return blk[0][0] in ('want', 'try') and blk[-1][0] == 'rel'
 
 
 def fork_point(parent, anc, g):
@@ -344,7 +408,7 @@ def write_locks(steps):
     return {a for (op, a, m, s, k, c) in steps if op in ('got', 'try') and m == 'w'}
 
 
-def build_combos(shape_list, occs, parent, names, arity3, cap3=3000):
+def build_combos(shape_list, occs, parent, names, arity3, cap3=1200):
     """Combos = sets of 2 (3) occurrence classes executed by different goroutines on overlapping instances, projected onto
     the shared instances and de-duplicated."""
     by_addr = collections.defaultdict(set)
@@ -402,6 +466,8 @@ def build_combos(shape_list, occs, parent, names, arity3, cap3=3000):
         for i in group:
             o = occs[i]
             steps = project(shape_list[o.shape], o.addrs, keep)
+            if len(steps) > 12:
+                steps = [steps[k] for k in compress(steps, 2)]    # loops that became identical by the projection
             projs.append(steps)
         # step indexes of a gate refer to the unprojected episode: translate (number of kept steps among the first k)
         g2 = []
@@ -525,6 +591,83 @@ def build_combos(shape_list, occs, parent, names, arity3, cap3=3000):
     return progs, combos, stats
 
 
+def class_level_combos(shape_list, cap=250):
+    """DIAGNOSTIC generalisation: two episode shapes that nest two lock CLASSES in opposite orders are paired as if they had
+    met on the same two instances (instance renaming), optionally with a third goroutine that write-locks one of the two
+    (pending writer). This can predict deadlocks that are impossible (the instances may never coincide, the goroutines may
+    be ordered), so its predictions are only ever listed as unconfirmed unless the gate demonstrates them."""
+    edges = collections.defaultdict(list)     # (c1, c2) -> [(shape id, local held, local acquired)]
+    writers = collections.defaultdict(list)   # class -> [(site of want/got, site of rel)]
+    for sid, sh in enumerate(shape_list):
+        held = []
+        seen = set()
+        for idx, (op, l, m, site) in enumerate(sh['prog']):
+            if op in ('got', 'try'):
+                for h in held:
+                    c1, c2 = sh['cls'][h - 1], sh['cls'][l - 1]
+                    if h != l and c1 != c2 and (h, l) not in seen:
+                        seen.add((h, l))
+                        edges[(c1, c2)].append((sid, h, l))
+                held.append(l)
+                if m == 'w' and sh['kinds'][l - 1] == 'rw' and len(writers[sh['cls'][l - 1]]) < 3:
+                    rels = [s2 for (o2, l2, m2, s2) in sh['prog'][idx:] if o2 == 'rel' and l2 == l and m2 == 'w']
+                    w = (site, rels[0] if rels else site)
+                    if w not in writers[sh['cls'][l - 1]]:
+                        writers[sh['cls'][l - 1]].append(w)
+            elif op == 'rel' and l in held:
+                held.remove(l)
+    progs, prog_id, combos, seen = [], {}, [], set()
+
+    def pid(prog):
+        prog = tuple(prog)
+        if prog not in prog_id:
+            prog_id[prog] = len(progs) + 1
+            progs.append(prog)
+        return prog_id[prog]
+
+    def proj(sh, keep):     # keep: local -> universe
+        loc, lk, prog = {}, [], []
+        for (op, l, m, s) in sh['prog']:
+            if l in keep:
+                if l not in loc:
+                    loc[l] = len(loc) + 1
+                    lk.append(keep[l])
+                prog.append((op, loc[l], m, s))
+        return pid(prog), tuple(lk)
+
+    for (c1, c2), es1 in sorted(edges.items()):
+        if (c2, c1) not in edges or c1 > c2:
+            continue
+        for (s1, h1, a1) in es1:
+            for (s2, h2, a2) in edges[(c2, c1)]:
+                if len(combos) >= cap:
+                    break
+                sh1, sh2 = shape_list[s1], shape_list[s2]
+                if len(sh1['gs'] | sh2['gs']) < 2:
+                    continue
+                # universe: 1 = the c1 instance, 2 = the c2 instance
+                p1, lk1 = proj(sh1, {h1: 1, a1: 2})
+                p2, lk2 = proj(sh2, {h2: 2, a2: 1})
+                kinds = (sh1['kinds'][h1 - 1], sh1['kinds'][a1 - 1])
+                base = {'kind': kinds, 'cls': (c1, c2), 'tests': [], 'level': 'class', 'n': 1}
+                key = (p1, lk1, p2, lk2)
+                if key not in seen:
+                    seen.add(key)
+                    combos.append(dict(base, eps=(p1, p2), lk=(lk1, lk2), gate=((0, 0), (0, 0))))
+                # pending writers on a lock one of the two only reads
+                for L, c in ((1, c1), (2, c2)):
+                    if kinds[L - 1] != 'rw':
+                        continue
+                    for (ws, wr) in writers.get(c, [])[:2]:
+                        p3 = pid((('want', 1, 'w', ws), ('got', 1, 'w', ws), ('rel', 1, 'w', wr)))
+                        key3 = key + (p3, L)
+                        if key3 in seen:
+                            continue
+                        seen.add(key3)
+                        combos.append(dict(base, eps=(p1, p2, p3), lk=(lk1, lk2, (L,)), gate=((0, 0), (0, 0), (0, 0))))
+    return progs, combos
+
+
 # ------------------------------------------------------------------------------------------------- LockOrder model
 def tla_str(s):
     return '"' + s.replace('\\', '\\\\').replace('"', '\\"') + '"'
@@ -534,7 +677,7 @@ def tla_seq(items):
     return '<<' + ', '.join(items) + '>>'
 
 
-def mc_module(progs, combos):
+def mc_module(progs, combos, name='run'):
     out = ['---------------------------- MODULE LockOrderData ----------------------------',
            '(* generated by tools/props/C34.py from the lock episodes recorded on the current tree; replaces the demo data of *)',
            '(* spec/LockOrderData.tla in the scratch copy of spec/ only; never stored *)',
@@ -545,7 +688,7 @@ def mc_module(progs, combos):
         ps.append('  ' + tla_seq('[op |-> %s, l |-> %d, m |-> %s, s |-> %s]' % (tla_str(op), l, tla_str(m), tla_str(s)) for (op, l, m, s) in p))
     out.append(',\n'.join(ps))
     out.append('>>')
-    out.append('ComboSets == [run |-> <<')
+    out.append('ComboSets == [%s |-> <<' % name)
     cs = []
     for c in combos:
         gate = list(c['gate']) + [(0, 0)] * (3 - len(c['gate']))
@@ -693,40 +836,90 @@ def predictions(progs, combos, preds):
             _, L, m, site = s['next']
             roles.append({'want_site': site, 'want_cls': cb['cls'][L - 1], 'want_mode': m,
                           'hold': [{'site': hs, 'cls': cb['cls'][HL - 1]} for (HL, hm, hs) in s['held']]})
-        sig = sorted('%s->%s@%s/%s' % ('+'.join('%s@%s' % (h['cls'], h['site']) for h in r['hold']) or '-', r['want_cls'],
+        sig = sorted(('pending-writer:%s' % r['want_cls']) if not r['hold'] and r['want_mode'] == 'w' else
+                     '%s->%s@%s/%s' % ('+'.join(sorted('%s@%s' % (h['cls'], h['site']) for h in r['hold'])) or '-', r['want_cls'],
                                        r['want_site'], r['want_mode']) for r in roles)
         key = 'deadlock:' + '|'.join(sig)
         p = out.get(key)
         if p is None:
-            p = out[key] = {'key': key, 'roles': sorted(roles, key=lambda r: (r['want_site'], r['want_cls'])), 'tests': set(),
-                            'combos': 0, 'arity': len(cyc)}
+            p = out[key] = {'key': key, 'roles': [], 'tests': set(), 'combos': 0, 'arity': len(cyc)}
+        for r in sorted(roles, key=lambda r: (r['want_site'], r['want_cls'])):
+            if r not in p['roles'] and len(p['roles']) < 12:
+                p['roles'].append(r)       # alternatives (e.g. several writers of the same lock) are all armed in the gate
         p['tests'] |= set(cb['tests'])
         p['combos'] += 1
     return list(out.values()), hazards
+
+
+def demo_key(shown):
+    """Goroutine-independent key of a demonstrated deadlock: per member of the cycle the locks it holds that another member
+    is about to acquire, and what it is about to acquire itself."""
+    cyc = shown['cycle']
+    wanted = {c['want']['addr'] for c in cyc}
+    parts = []
+    for c in cyc:
+        hold = sorted({'%s@%s' % (h['cls'], h['site']) for h in (c.get('held') or []) if h['addr'] in wanted})
+        if not hold and c['want']['mode'] == 'w':
+            # a goroutine that holds nothing of the cycle and is merely about to Lock: which of the many writers of that
+            # lock it is does not identify the defect
+            parts.append('pending-writer:%s' % c['want']['cls'])
+        else:
+            parts.append('%s->%s@%s/%s' % ('+'.join(hold) or '-', c['want']['cls'], c['want']['site'], c['want']['mode']))
+    return 'deadlock:' + '|'.join(sorted(parts))
+
+
+def demo_text(shown):
+    return ' || '.join('goroutine %d holds %s and is about to acquire %s at %s' % (
+        c['g'], ', '.join('%s(%s)@%s' % (h['cls'], h['mode'], h['site']) for h in (c.get('held') or [])) or 'nothing',
+        c['want']['cls'] + '(' + c['want']['mode'] + ')', c['want']['site']) for c in shown['cycle'])
+
+
+def observed_deadlock(ctx, outdir, what):
+    """A lock cycle that HAPPENED in a workload run (zzvlk.checkStuck / Lock of an instance already held)."""
+    dj = os.path.join(outdir, 'deadlock.json')
+    if not os.path.exists(dj):
+        return False
+    with open(dj) as f:
+        shown = json.load(f)
+    ctx.violation(demo_key(shown), '%s: %s' % (what, demo_text(shown)), {'demonstration': shown})
+    return True
 
 
 # ------------------------------------------------------------------------------------------------- pipeline
 def record(ctx, ov, table, name, tests, meta):
     res, err, outdir = run_workload(ctx, ov, table, name, tests=tests)
     log = os.path.join(outdir, 'locks.ndjson')
+    if observed_deadlock(ctx, outdir, 'the workload deadlocked: real goroutines blocked on each other (no gate involved)'):
+        return None, [], [], err
     if res is None and not os.path.exists(os.path.join(outdir, 'result.json')):
         raise MachineryError('workload run %s produced nothing: %s' % (name, (err or '')[-2500:]))
     if res is None:
         with open(os.path.join(outdir, 'result.json')) as f:
             res = json.load(f)
     failed = (res.get('extra') or {}).get('failed') or []
+    hung = (res.get('extra') or {}).get('hung') or []
+    if hung:
+        print('NOTE: workload tests still running at the deadline (no lock cycle among blocked goroutines): %s' % hung)
+        failed = failed + ['%s (hung)' % h for h in hung]
+        if len(hung) > max(2, len((res.get('extra') or {}).get('ran') or []) // 4):
+            raise MachineryError('most of the workload did not terminate: %s' % hung)
     if not os.path.exists(log):
         raise MachineryError('workload run %s wrote no lock log: %s' % (name, (err or '')[-2500:]))
     return res, failed, load_log(log), err
 
 
 def select_tests(ctx, names):
+    # development aid: VERIF_C34_WORKLOADS=e2e (scripted tests only) | stress (the concurrent workload only); default both
+    wl = os.environ.get('VERIF_C34_WORKLOADS', 'all')
+    if wl == 'stress':
+        return [STRESS], '^%s$' % STRESS
+    stress = [STRESS] if wl != 'e2e' else []
     if not ctx.quick:
-        return names + [STRESS], None
+        return names + stress, ('^(' + '|'.join(names) + ')$') if wl == 'e2e' else None
     # quick: every third test, rotated by the seed, plus the relay / reload / close-tunnel tests that give the nested episodes
     core = {'TestRelays', 'TestStage1Race', 'TestLighthouseUpdateOnReload', 'TestCloseTunnelAuthenticated', 'TestRehandshaking',
             'TestReestablishRelays', 'TestGoodHandshake', 'TestRehandshakingRelays'}
-    sel = [n for i, n in enumerate(names) if n in core or (i + ctx.seed) % 3 == 0] + [STRESS]
+    sel = [n for i, n in enumerate(names) if n in core or (i + ctx.seed) % 3 == 0] + stress
     return sel, '^(' + '|'.join(sel) + ')$'
 
 
@@ -745,6 +938,9 @@ def run(ctx):
     selftest_model(ctx)
 
     res, failed, ev, err = record(ctx, ov, table, 'record', rx, meta)
+    if ctx.violations:
+        ctx.extra['workload'] = {'deadlocked': True}
+        return
     ctx.evaluations += len(ev)
     ctx.actions['test'] += len((res.get('extra') or {}).get('ran') or [])
     ctx.extra['workload'] = {'tests': (res.get('extra') or {}).get('ran'), 'failed': failed, 'events': len(ev),
@@ -757,6 +953,8 @@ def run(ctx):
     lines, sites, nparts = discipline_trace(ev, comp)
     ctx.extra['discipline'] = {'trace_lines': len(lines), 'parts': nparts, 'access_sites_exercised': len(sites),
                                'fields_exercised': sorted({s[0] for s in sites})}
+    if len({x[0] for x in sites}) * 2 < len(meta['maps']):
+        raise MachineryError('vacuous: the workloads touched only %d of %d guarded map fields' % (len({x[0] for x in sites}), len(meta['maps'])))
     rejected = validate_discipline(ctx, lines, meta, 'a')
     ctx.traces += nparts
     if rejected:
@@ -767,7 +965,7 @@ def run(ctx):
         res2, failed2, ev2, _ = record(ctx, ov, table, 'record2', rx, meta)
         comp2, _ = components(ev2)
         lines2, _, _ = discipline_trace(ev2, comp2)
-        rej2 = {(r['kind'], r['f'], r['m'], r['s']) for r in validate_discipline(ctx, lines2, meta, 'b')}
+        rej2 = {(r['kind'], r['f'], r['m'], r['s']) for r in validate_discipline(ctx, lines2, meta, 'b')} if ev2 else set()
         for r in rejected:
             k = (r['kind'], r['f'], r['m'], r['s'])
             if k in rej2:
@@ -789,6 +987,14 @@ def run(ctx):
                              'occurrence_classes': len(occs), 'incomplete': est['incomplete_episodes'],
                              'recursive_rlock_events': est.get('hazard_2', 0), 'goroutines_with_known_parent': len(parent),
                              'classes_locked': sorted({c for s in shape_list for c in s['cls']})}
+    # evidence samples: the deepest recorded lock episodes (what TLC interleaves)
+    for sh in sorted(shape_list, key=lambda x: -x['depth'])[:2]:
+        try:
+            ctx.samples.append({'lock_episode': json.loads(json.dumps(sh, default=str))})
+        except Exception:
+            ctx.samples.append({'lock_episode': str(sh)[:800]})
+    if lines:
+        ctx.samples.append({'discipline_trace_line': lines[len(lines) // 2]})
     ctx.extra['combos'] = dict(cst)
     ctx.extra['combos']['programs'] = len(progs)
     nest = collections.Counter()
@@ -809,49 +1015,69 @@ def run(ctx):
     plist, hazards = predictions(progs, combos, preds)
     ctx.extra['hazards_predicted'] = dict(hazards)
     unconfirmed = []
-    max_plans = 3 if ctx.quick else 8
-    attempts = 2 if ctx.quick else 3
-    for pi, p in enumerate(plist):
-        if pi >= max_plans:
-            unconfirmed.append({'key': p['key'], 'why': 'not attempted (more than %d predictions)' % max_plans})
-            continue
-        print('PREDICTION (TLC, %d-cycle): %s' % (p['arity'], p['key']))
-        shown = None
+
+    def attempt(p, pi, schedule, label):
+        """gated re-runs for one prediction; True if real goroutines were caught in the cycle"""
         tests = sorted(p['tests'])
-        for a in range(attempts):
-            # the concurrent stress workload first (that is where partners arrive while a goroutine is parked); the last
-            # attempt adds the scripted tests in which the episodes were recorded
-            sel = [STRESS] if a < attempts - 1 else sorted(set(tests[:6] + [STRESS]))
-            trx = '^(' + '|'.join(sel) + ')$'
-            plan = {'key': p['key'], 'roles': p['roles'], 'timeout_ms': [250, 600, 400][a], 'max_parks': [40, 20, 10][a]}
-            pf = os.path.join(ctx.scratch, 'plan_%d_%d.json' % (pi, a))
+        nostress = os.environ.get('VERIF_C34_WORKLOADS') == 'e2e'
+        for a, (with_tests, tmo, parks) in enumerate(schedule):
+            sel = sorted(set(([] if nostress else [STRESS]) + (tests[:6] if with_tests or nostress else [])))
+            if not sel:
+                continue
+            plan = {'key': p['key'], 'roles': p['roles'], 'timeout_ms': tmo, 'max_parks': parks}
+            pf = os.path.join(ctx.scratch, 'plan_%s_%d_%d.json' % (label, pi, a))
             with open(pf, 'w') as f:
                 json.dump(plan, f)
-            res3, err3, outdir = run_workload(ctx, ov, table, 'gate_%d_%d' % (pi, a), tests=trx, plan=pf, timeout=240)
+            res3, err3, outdir = run_workload(ctx, ov, table, 'gate_%s_%d_%d' % (label, pi, a), tests='^(' + '|'.join(sel) + ')$',
+                                              plan=pf, timeout=300, deadline=90)
             dj = os.path.join(outdir, 'deadlock.json')
             if os.path.exists(dj):
                 with open(dj) as f:
                     shown = json.load(f)
-                break
-        if shown:
-            ctx.violation(p['key'], 'deadlock predicted by TLC and demonstrated on real goroutines: ' + ' || '.join(
-                'goroutine %d holds %s and is about to acquire %s at %s' % (
-                    c['g'], ', '.join('%s(%s)@%s' % (h['cls'], h['mode'], h['site']) for h in c['held']) or 'nothing',
-                    c['want']['cls'] + '(' + c['want']['mode'] + ')', c['want']['site']) for c in shown['cycle']),
-                {'prediction': {'roles': p['roles'], 'tests': tests}, 'demonstration': shown})
-        else:
-            print('  not reproduced on real goroutines in %d gated re-runs: counted as unconfirmed' % attempts)
-            unconfirmed.append({'key': p['key'], 'roles': p['roles'], 'tests': tests, 'why': 'gate never caught the cycle'})
+                ctx.violation(demo_key(shown), 'deadlock predicted by TLC and reproduced: real goroutines, brought into the '
+                              'predicted state by the gate and then released, stayed blocked on each other: ' + demo_text(shown),
+                              {'prediction': {'key': p['key'], 'roles': p['roles'], 'tests': tests, 'level': label},
+                               'demonstration': shown})
+                return True
+            if os.path.exists(os.path.join(outdir, 'gate_only.json')):
+                p['gate_note'] = 'the gate caught real goroutines in the predicted state, but released into their blocking calls they did not stay blocked'
+        return False
+
+    # the concurrent stress workload first (that is where partners arrive while a goroutine is parked); the last attempt
+    # adds the scripted tests in which the episodes were recorded
+    sched = [(False, 250, 40), (True, 400, 10)] if ctx.quick else [(False, 250, 40), (False, 600, 20), (True, 400, 10)]
+    max_plans = 3 if ctx.quick else 8
+    for pi, p in enumerate(plist):
+        if pi >= max_plans:
+            unconfirmed.append({'key': p['key'], 'why': 'not attempted (more than %d predictions)' % max_plans})
+            continue
+        print('PREDICTION (TLC, %d-cycle, recorded instances): %s' % (p['arity'], p['key']))
+        if not attempt(p, pi, sched, 'inst'):
+            print('  not reproduced on real goroutines in %d gated re-runs: counted as unconfirmed' % len(sched))
+            unconfirmed.append({'key': p['key'], 'level': 'instance', 'roles': p['roles'], 'tests': sorted(p['tests']),
+                                'why': p.get('gate_note', 'the gate never caught the cycle')})
+
+    # ---- diagnostic: class-level generalisation (thorough tier only); can only add "unconfirmed" entries or demonstrations
+    if not ctx.quick and not ctx.violations:
+        cprogs, ccombos = class_level_combos(shape_list)
+        ctx.extra['class_level'] = {'combos': len(ccombos)}
+        if ccombos:
+            r = ctx.tlc('LockOrder', 'MC_LockOrder_cls.cfg', cfgtext=CFG_ENUM % 3, files={'LockOrderData.tla': mc_module(cprogs, ccombos)},
+                        workers=8, timeout=900)
+            cpreds = [(m.group(1), int(m.group(2)) - 1, tuple(int(x) for x in m.group(3).split(',')))
+                      for m in re.finditer(r'<<"VLK", "(\w+)", (\d+), <<([\d, ]+)>>>>', r['out'])]
+            cl, chaz = predictions(cprogs, ccombos, cpreds)
+            known = {p['key'] for p in plist}
+            cl = [p for p in cl if p['key'] not in known]
+            ctx.extra['class_level']['predictions'] = len(cl)
+            for pi, p in enumerate(cl):
+                print('PREDICTION (TLC, %d-cycle, class level - instances renamed, diagnostic): %s' % (p['arity'], p['key']))
+                if pi < 2 and attempt(p, pi, [(False, 300, 30)], 'cls'):
+                    continue
+                unconfirmed.append({'key': p['key'], 'level': 'class', 'roles': p['roles'],
+                                    'why': p.get('gate_note', 'the gate never caught the cycle') if pi < 2 else 'not attempted'})
     ctx.extra['predictions'] = len(plist)
     ctx.extra['unconfirmed'] = unconfirmed
-    # self-deadlocks observed directly by the runtime (Lock of an instance the goroutine already holds)
-    dj = os.path.join(ctx.scratch, 'out_record', 'deadlock.json')
-    if os.path.exists(dj):
-        with open(dj) as f:
-            shown = json.load(f)
-        c = shown['cycle'][0]
-        ctx.violation('selflock:%s:%s' % (c['want']['cls'], c['want']['site']),
-                      'goroutine locks %s at %s while it already holds that instance' % (c['want']['cls'], c['want']['site']), shown)
     if not ctx.violations:
         ctx.require_actions('test')
 
@@ -867,7 +1093,9 @@ META = {
             'tests run on it. TLC (A) explores every interleaving of the recorded lock episodes that different goroutines '
             'ran on shared instances and (B) validates the recorded trace against the guard table of LockDiscipline.tla. '
             'A predicted deadlock is reported only after a gated re-run parked real goroutines in the predicted cycle.',
-    'design_ref': '4 (C34: the part decidable by a model; data races stay not_applicable)',
-    'note': 'Does not decide data races on non-map memory, atomics or channel protocols. Deadlocks: only among lock episodes '
-            'the e2e tests exercise.',
+    'design_ref': '4 C34',
+    'note': 'PARTIAL claim: decides deadlock freedom of the sync.Mutex/RWMutex protocol (among the lock episodes the workloads exercise, '
+            'predictively over their interleavings) and the lock discipline of mutex-guarded Go maps. Does NOT decide data races on '
+            'non-map memory, atomics or channel protocols (a happens-before detector would be a different technique). Found and '
+            'fixed: three-party HostMap/RemoteList deadlock (known_findings.jsonl, fixed: C34 88528be).',
 }
